@@ -62,7 +62,9 @@ func parseImpl(raw string) (out string, u *transport.URL, err error, panicked in
 func init() {
 	register("C19", "cases: URLs composed from component tuples (schemes incl. ardop/telnet/ax25/serial-tnc, optional user[:password] with escapes, hosts with/without port, 0..8 digipeaters, targets with SSIDs and of length 0..9, query parameters incl. host), raw strings (random bytes, mutated URLs, percent garbage), and register/unregister/dial histories over 3 schemes. The model receives the real url.Parse output. Non-trivial: tuples with >=1 digi or a host parameter or a short target, raw strings that url.Parse accepts, histories with >=3 ops; distinct by case line.", func(c *Ctx) {
 		var cases []Case
-		calls := []string{"LA1B", "la5nta", "LD5SK-10", "w1aw-7", "N0CALL", "ab", "a", "", "x1y", "LA1B-15", "äb1", "A%2FB"}
+		// incl. letters whose UTF-8 length changes under strings.ToUpper (dotless i, long s: 2 bytes -> 1; turned a:
+		// 2 -> 3; latin small a with stroke: 3 -> 2), so that "shorter than three" is tested on the target returned
+		calls := []string{"LA1B", "la5nta", "LD5SK-10", "w1aw-7", "N0CALL", "ab", "a", "", "x1y", "LA1B-15", "äb1", "A%2FB", "\u0131a", "\u017f1", "\u0131\u0131", "\u0250", "\u2c65", "a\u0131", "\u0131ab"}
 		schemes := []string{"ax25", "ardop", "telnet", "serial-tnc", "AX25", "agwpe", "ax25+linux"}
 		hosts := []string{"", "ax0", "localhost:8000", "192.168.1.2:8515", "my-port", "[::1]:80"}
 		addTuple := func(scheme, user, pass, host string, digis []string, target string, params [][2]string) {
@@ -94,6 +96,10 @@ func init() {
 				c.Violate("C19:panic", fmt.Sprintf("ParseURL(%q) panicked: %v", raw, p), rep)
 				return
 			}
+			// whatever the spelling: a URL that is accepted never carries a target shorter than three
+			if err == nil && u != nil && len(u.Target) < 3 {
+				c.Violate("C19:short-target-accepted", fmt.Sprintf("ParseURL(%q) accepted the URL with the %d-byte target %q", raw, len(u.Target), u.Target), rep)
+			}
 			// oracle: exactly those components
 			simple := func(s string) bool { return s != "" && !strings.ContainsAny(s, "/") }
 			okTuple := simple(target)
@@ -109,6 +115,8 @@ func init() {
 			if okTuple {
 				up := strings.ToUpper
 				switch {
+				case !isASCII(target) && len(target) != len(up(target)):
+					// "shorter than three" is measured on the upper-cased target the URL carries (checked above)
 				case len(target) < 3:
 					if err != transport.ErrInvalidTarget {
 						c.Violate("C19:short-target-accepted", fmt.Sprintf("ParseURL(%q): target %q shorter than 3 not refused (%v)", raw, target, err), rep)
